@@ -432,6 +432,8 @@ def compile_mem_sequence(seq):
                 sub.append("PUSH %x" % vi[1])
             elif isinstance(vi, tuple) and vi[0] == "in":       # an absolute input (0 = x, 1 = y: value and address related)
                 sub.append("DUP%d" % (hh + vi[1] + 1))
+            elif isinstance(vi, tuple) and vi[0] == "ld":       # the result of the vi[1]-th load so far (data flow load -> store)
+                sub.append("DUP%d" % (hh - vi[1]))
             else:
                 sub.append("DUP%d" % (hh + 2 + vi + 1))
             hh += 1
@@ -485,6 +487,24 @@ def f_mem_repeated_store(deltas=(0, 1, 31, 32)):
                     seq = [(st, a, 0), (mid, am, 1), (st, a, 0)]
                     out.append(compile_mem_sequence(seq))
                     out.append(compile_mem_sequence(seq + [(tail, a, 0)]))
+    return list(dict.fromkeys(out))
+
+
+def f_mem_dataflow(deltas=(0, 32), spaces=("mem", "sto")):
+    """loads whose result is stored later, with other stores in between: the ordering constraints then form chains
+    (load before store because of aliasing, store after load because of data flow)"""
+    atoms = [a for _, a in _addr_atoms(list(deltas))]
+    out = []
+    for sp in spaces:
+        L, S = ("MLOAD", "MSTORE") if sp == "mem" else ("SLOAD", "SSTORE")
+        shapes = [[(L, None), (S, 0), (S, ("ld", 0))], [(L, None), (S, ("ld", 0)), (S, 0)], [(S, 0), (L, None), (S, ("ld", 0))],
+                  [(L, None), (S, ("ld", 0)), (L, None)], [(L, None), (L, None), (S, ("ld", 0)), (S, ("ld", 1))],
+                  [(L, None), (S, 0), (L, None), (S, ("ld", 0))]]
+        for shape in shapes:
+            for addrs in itertools.product(atoms, repeat=len(shape)):
+                if len(shape) > 3 and len(set(map(repr, addrs))) > 2:
+                    continue
+                out.append(compile_mem_sequence([(op, a, v if v is not None else 0) for (op, v), a in zip(shape, addrs)]))
     return list(dict.fromkeys(out))
 
 
